@@ -33,7 +33,8 @@ Inductive error :=
 | EUnicodeEncode      (* str.encode('utf8') met a lone surrogate *)
 | EUnicodeDecode      (* bytes.decode('utf8') (strict) failed *)
 | EIndex              (* ''[-1] *)
-| ENoneType.          (* None reached unquote() / safe_filename() (assert / TypeError) *)
+| ENoneType           (* None reached unquote() / safe_filename() (assert / TypeError) *)
+| EValue.             (* ValueError from urllib.parse.urlsplit / SplitResult.port *)
 
 Inductive result (A : Type) :=
 | Ok (a : A)
@@ -432,7 +433,7 @@ Section Oracles.
   (* -------------------------------------------------------------- *)
   (* posixpath.join / dirname / normpath                             *)
   (* -------------------------------------------------------------- *)
-  Definition starts_slash (s : str) : bool := match s with 47 :: _ => true | _ => false end.
+  Definition starts_slash (s : str) : bool := match s with c :: _ => c =? 47 | [] => false end.
 
   Fixpoint posix_join (path : str) (ps : list str) : str :=
     match ps with
@@ -585,8 +586,8 @@ Section Oracles.
   (* posixpath.dirname *)
   Fixpoint rstrip_slash_rev (r : str) : str :=
     match r with
-    | 47 :: r' => rstrip_slash_rev r'
-    | _ => r
+    | c :: r' => if c =? 47 then rstrip_slash_rev r' else r
+    | [] => []
     end.
 
   (* everything up to and including the last '/' *)
@@ -646,15 +647,20 @@ Section Oracles.
     then comp :: stack
     else match stack with _ :: st => st | [] => [] end.
 
+  (* initial_slashes = path.startswith('/'); two leading slashes (exactly) are kept *)
+  Definition initial_slashes (p : str) : nat :=
+    match p with
+    | a :: b :: c :: _ =>
+        if a =? 47 then (if b =? 47 then (if c =? 47 then 1%nat else 2%nat) else 1%nat) else 0%nat
+    | [a; b] => if a =? 47 then (if b =? 47 then 2%nat else 1%nat) else 0%nat
+    | [a] => if a =? 47 then 1%nat else 0%nat
+    | [] => 0%nat
+    end.
+
   Definition posix_normpath (p : str) : str :=
     if is_nil p then dot
     else
-      let initial := match p with
-                     | 47 :: 47 :: 47 :: _ => 1%nat
-                     | 47 :: 47 :: _ => 2%nat
-                     | 47 :: _ => 1%nat
-                     | _ => 0%nat
-                     end in
+      let initial := initial_slashes p in
       let stack := fold_left (normpath_step initial) (split_on 47 p) [] in
       let res := repeat 47 initial ++ intercalate [47] (rev stack) in
       if is_nil res then dot else res.
@@ -732,7 +738,7 @@ Definition fs_exists tab p := snd (fs_lookup tab p).
 Definition error_eqb (a b : error) : bool :=
   match a, b with
   | EUnicodeEncode, EUnicodeEncode | EUnicodeDecode, EUnicodeDecode
-  | EIndex, EIndex | ENoneType, ENoneType => true
+  | EIndex, EIndex | ENoneType, ENoneType | EValue, EValue => true
   | _, _ => false
   end.
 
